@@ -106,6 +106,52 @@ func gen(g *vh.Gen) {
 		store := []string{"file", "mem"}[i%2]
 		g.Emit("stress", store, "0", "0", strconv.Itoa(g.Intn(1000000)), "4", strconv.Itoa(g.N(300, 800)))
 	}
+	// fault family: the index of mailbox 1 can no longer be rewritten (file store, with and without cap)
+	g.Emit("fault", "2", "2", "a:1:1:10,l:1,l:2,a:2:2:10")
+	g.Emit("fault", "3", "3", "a:1:1:10,a:2:2:10,l:2,v")
+	g.Emit("fault", "2", "2", "a:1:1:10,l:1,l:2,a:2:2:10,s:1:90,r:1:90,g:1:91,t:1,v,a:4:3:10,p:1,a:1:4:10,l:1")
+	g.Emit("fault", "0", "2", "a:1:1:10,s:1:90,r:1:90,r:1:91,a:1:2:10,l:1")
+	for i := 0; i < g.N(8, 60); i++ {
+		capv := []int{0, 2, 3, 4}[g.Intn(4)]
+		fill := 1 + g.Intn(3)
+		if capv > 0 && g.Chance(0.6) {
+			fill = capv
+		}
+		if capv > 0 && fill > capv {
+			fill = capv
+		}
+		n := 3 + g.Intn(5)
+		var ops []string
+		for j := 0; j < n; j++ {
+			mb := []int{1, 1, 1, 2, 2, 4}[g.Intn(6)]
+			tgt := "x"
+			switch mb {
+			case 1:
+				tgt = strconv.Itoa(90 + g.Intn(fill))
+			case 2:
+				tgt = "80"
+			case 4:
+				tgt = "81"
+			}
+			switch k := g.Intn(14); {
+			case k < 5:
+				ops = append(ops, fmt.Sprintf("a:%d:%d:10", mb, j+1))
+			case k < 7:
+				ops = append(ops, fmt.Sprintf("l:%d", mb))
+			case k < 9:
+				ops = append(ops, fmt.Sprintf("s:%d:%s", mb, tgt))
+			case k < 11:
+				ops = append(ops, fmt.Sprintf("r:%d:%s", mb, tgt))
+			case k < 12:
+				ops = append(ops, fmt.Sprintf("g:%d:%s", mb, tgt))
+			case k < 13:
+				ops = append(ops, "v")
+			default:
+				ops = append(ops, fmt.Sprintf("p:%d", mb))
+			}
+		}
+		g.Emit("fault", strconv.Itoa(capv), strconv.Itoa(fill), strings.Join(ops, ","))
+	}
 	// scenarios that are always present
 	g.Emit("mem", "0", "1", "-", "a:1:1:100,r:1:1")
 	g.Emit("mem", "0", "1", "-", "a:1:1:100,p:1")
